@@ -88,11 +88,15 @@ func (ucr *UnsignedChunkReader) Read(p []byte) (int, error) {
 			break
 		}
 		rdr := io.TeeReader(ucr.reader, ucr.hasher)
-		payload := make([]byte, chunkSize)
-		// Read and cache the payload
-		_, err = io.ReadFull(rdr, payload)
+		// Read and cache the payload. The buffer grows with the bytes
+		// actually received, never with the declared chunk size alone.
+		payload, err := io.ReadAll(io.LimitReader(rdr, chunkSize))
 		if err != nil {
 			return 0, err
+		}
+		if int64(len(payload)) < chunkSize {
+			// the stream ended before the end of the chunk
+			return 0, io.ErrUnexpectedEOF
 		}
 
 		// Skip the trailing "\r\n"
